@@ -199,6 +199,14 @@ class World:
         hit = [b.label for b in self.buses.values() if b.name == busname]
         return hit[0] if len(hit) == 1 else busname
 
+    @staticmethod
+    def _first_not_none(*xs):
+        return next((x for x in xs if x is not None), None)
+
+    def _lookup(self, local, key):
+        """the handler's own event of that key, else the world's; by identity, never by truth value (an event class may be falsy)"""
+        return self._first_not_none(local.get(key), self.events.get(key))
+
     def name_of(self, event):
         return self.by_id.get(event.event_id) or f'?{event.event_type}'
 
@@ -248,9 +256,19 @@ class World:
                 if e is not None and op[3] == 'await':
                     await self._await(who, e)
             elif k == 'await':
-                e = local.get(op[1]) or self.events.get(op[1])
+                e = self._lookup(local, op[1])
                 if e is not None:
                     await self._await(who, e)
+            elif k == 'redisp_named':  # ('redisp_named', bus, prefix): dispatch the first existing event whose name starts with prefix to bus (again / as well)
+                e = next((x for nm, x in list(self.events.items()) if nm.startswith(op[2])), None)
+                if e is not None:
+                    tok = VIA.set('prog')
+                    try:
+                        self.buses[op[1]].dispatch(e)
+                    except Exception:  # noqa: BLE001
+                        pass
+                    finally:
+                        VIA.reset(tok)
             elif k == 'await_named':  # ('await_named', prefix): await the first event whose name starts with prefix, whoever dispatched it (e.g. a sibling handler)
                 e = next((x for nm, x in list(self.events.items()) if nm.startswith(op[1]) and not any(x is r for r in self.rejected)), None)
                 if e is not None:
@@ -318,7 +336,7 @@ class World:
                     except BaseException:  # noqa: BLE001
                         pass
             elif k == 'result':  # ('result', evkey, raise_if_any): call the accessor and record what it did
-                e = local.get(op[1]) or self.events.get(op[1])
+                e = self._lookup(local, op[1])
                 try:
                     val = await e.event_result(raise_if_any=op[2], raise_if_none=False)
                     self.rec('accessor', who, e.name, op[2], 'value', repr(val)[:40])
@@ -408,7 +426,7 @@ class World:
             VIA.reset(tok)
 
     def _redisp(self, who, op, local):
-        e = local.get(op[2]) or self.events.get(op[2])
+        e = self._lookup(local, op[2])
         if e is None:
             return
         tok = VIA.set('prog')
